@@ -192,6 +192,8 @@ def worker_main(prop, tier, shard, hyp_seed, outfile):
         from hypothesis import HealthCheck, Phase, given, settings
         mod = load_module(prop)
         budget = dict(mod.BUDGET[tier])
+        if hasattr(mod, "shard_budget"):
+            budget.update(mod.shard_budget(tier, shard) or {})
         known_open = open_findings(prop)
         t_end = t0 + budget.get("seconds", 60)
         shrink_s = budget.get("shrink_seconds", 45 if tier == "quick" else 180)
